@@ -1381,6 +1381,12 @@ class Engine:
             if isinstance(tgt, ast.Subscript):
                 base = self.eval(tgt.value, fr)
                 key = self.eval(tgt.slice, fr)
+                li = self.st.ghost.get('live_iter')
+                if li is not None and isinstance(base, V):
+                    from . import heapglue
+                    prov = heapglue.table_prov(self, base)
+                    if prov is not None and (prov[0].t.get_id(), prov[1]) == li:
+                        self.st.ghost['live_iter_mutated'] = True
                 self.assign(tgt.value, self.B.delitem(self, base, key), fr)
             else:
                 raise Unsupported('del of %s' % type(tgt).__name__)
